@@ -45,6 +45,46 @@ def txt(n):
     return ast.unparse(n)
 
 
+REMOVERS = {}       # name -> index of the child argument among the call's arguments (receiver excluded); filled by find_removers()
+
+
+def find_removers(repo):
+    """the recursive unlisting helper of `remove`, whatever it is called and wherever it lives (module function `f(parent, child)` or
+    method `parent.f(child)`): a function that calls itself, does `<parent>._children.remove(<child parameter>)` and refreshes the views of
+    the collection it unlisted from.  Contract (checked as E1 of the helper itself): it unlists at most the given child and leaves the
+    child's parent link to the caller."""
+    REMOVERS.clear()
+    found = []
+    for m, qn, fn, cl in repo.all_functions():
+        params = [a.arg for a in fn.args.posonlyargs + fn.args.args]
+        child = None
+        for c in ast.walk(fn):
+            if isinstance(c, ast.Call) and isinstance(c.func, ast.Attribute) and c.func.attr == "remove" and isinstance(c.func.value, ast.Attribute) \
+                    and c.func.value.attr == "_children" and len(c.args) == 1 and isinstance(c.args[0], ast.Name) and c.args[0].id in params:
+                child = c.args[0].id
+        rec = any(isinstance(c, ast.Call) and ((isinstance(c.func, ast.Name) and c.func.id == fn.name) or (isinstance(c.func, ast.Attribute) and c.func.attr == fn.name))
+                  for c in ast.walk(fn))
+        refresh = any(isinstance(c, ast.Call) and isinstance(c.func, ast.Attribute) and c.func.attr == "_update_src_and_sens" for c in ast.walk(fn))
+        if child and rec and refresh and fn.name not in ("remove", "add"):
+            idx = params.index(child) - (1 if cl is not None else 0)
+            REMOVERS[fn.name] = idx
+            found.append((m, qn, fn))
+    return found
+
+
+def _remover_call(c):
+    """-> the child argument of a call to the unlisting helper, or None"""
+    f_ = c.func
+    name = f_.id if isinstance(f_, ast.Name) else (f_.attr if isinstance(f_, ast.Attribute) else None)
+    if name in REMOVERS:
+        i = REMOVERS[name] if isinstance(f_, ast.Attribute) else REMOVERS[name]
+        if isinstance(f_, ast.Name) and 0 <= i < len(c.args):
+            return c.args[i]
+        if isinstance(f_, ast.Attribute) and 0 <= i < len(c.args):
+            return c.args[i]
+    return None
+
+
 class TreeClient(BaseClient):
     """state = frozenset of *worlds*; a world is a frozenset of facts/flags.  Joins are unions of world sets, i.e. the
     analysis is path-sensitive over the (small, finite) set of distinct flag combinations.
@@ -101,6 +141,11 @@ class TreeClient(BaseClient):
                     ws = nxt
                 return ws
             return {frozenset(w)}  # disjunctive information: no refinement
+        # a local bound once to `X._parent` / `X.parent` stands for it in the test (`old = obj._parent; if old is not None: old.remove(obj)`)
+        if isinstance(test, ast.Compare) and len(test.ops) == 1 and isinstance(test.left, ast.Name):
+            defs = [a.value for a in ast.walk(self.fn) if isinstance(a, ast.Assign) and any(isinstance(t, ast.Name) and t.id == test.left.id for t in a.targets)]
+            if len(defs) == 1 and isinstance(defs[0], ast.Attribute) and defs[0].attr in ("_parent", "parent"):
+                test = ast.Compare(left=defs[0], ops=test.ops, comparators=test.comparators)
         # X._parent is None / is not None
         if isinstance(test, ast.Compare) and len(test.ops) == 1 and isinstance(test.left, ast.Attribute) \
                 and test.left.attr in ("_parent", "parent") and isinstance(test.comparators[0], ast.Constant) \
@@ -110,9 +155,9 @@ class TreeClient(BaseClient):
                 w.add(("PARENT_NONE", self.key(test.left.value)))
             return {frozenset(w)}
         # truthiness of rec_obj_remover(parent, child): True iff child was unlisted
-        if isinstance(test, ast.Call) and isinstance(test.func, ast.Name) and test.func.id == "rec_obj_remover" and len(test.args) >= 2:
+        if isinstance(test, ast.Call) and _remover_call(test) is not None:
             if branch:
-                w.add(("UPK", self.key(test.args[1])))
+                w.add(("UPK", self.key(_remover_call(test))))
             w.add(("REMOVER_DECIDED", txt(test)))
             return {frozenset(w)}
         return {frozenset(w)}
@@ -217,8 +262,8 @@ class TreeClient(BaseClient):
                             S.add(("DETACHED", k)); S.discard(("PARENT_NONE", k))
                         return S
                     each(f)
-            if isinstance(f_, ast.Name) and f_.id == "rec_obj_remover" and len(c.args) >= 2:
-                k = self.key(c.args[1])
+            if _remover_call(c) is not None:
+                k = self.key(_remover_call(c))
                 if any(("REMOVER_DECIDED", txt(c)) in x for x in worlds):
                     continue  # outcome already fixed by the branch this call is the condition of
                 # result not inspected: the child may or may not have been found and unlisted
@@ -339,9 +384,12 @@ def run(repo, res, tier):
     for cls, name, setter in EDITORS:
         c, fn = find_fn(repo, cls, name, setter)
         fns.append((c.mod, f"{cls}.{name}{' (setter)' if setter else ''}", fn))
-    um = repo.mod("magpylib._src.utility")
-    if "rec_obj_remover" in um.funcs:
-        fns.append((um, "rec_obj_remover", um.funcs["rec_obj_remover"]))
+    removers = find_removers(repo)
+    remover_q = set()
+    for m_, qn_, fn_ in removers:
+        fns.append((m_, qn_, fn_))
+        remover_q.add(qn_)
+    res.analysed["unlisting_helpers"] = sorted(remover_q)
     for mod, qn, fn in fns:
         cl = TreeClient(fn, raising)
         exits, n_st = function_exits(fn, cl, frozenset({frozenset()}))
@@ -350,7 +398,7 @@ def run(repo, res, tier):
         for k, worlds, n in exits:
             for St in worlds:
                 St = {f for f in St if f[0] not in TreeClient.NONPENDING}
-                if qn == "rec_obj_remover":
+                if qn in remover_q:
                     St = {f for f in St if f[0] != "UPK"}  # by contract the caller clears the parent of the unlisted child
                 if St:
                     key = (k, norm(n) if not isinstance(n, ast.FunctionDef) else "end", tuple(sorted(St)))
